@@ -36,3 +36,6 @@ import LC.Props.C20SetsAlgebra
 #print axioms LC.Sets.unique_eq_union_minus_intersect
 #print axioms LC.Sets.insert_delete
 #print axioms LC.Sets.equal_equiv
+#print axioms LC.Sets.len_of_parts
+#print axioms LC.Sets.len_split
+#print axioms LC.Sets.len_union_intersect
